@@ -615,6 +615,21 @@ func (e *symEnv) eval(st *symState, x ast.Expr) Val {
 			return v
 		}
 	}
+	// *new(T): the zero value of T, written as an expression
+	if star, ok := x.(*ast.StarExpr); ok {
+		if call, ok := ast.Unparen(star.X).(*ast.CallExpr); ok && isBuiltinCall(e.info, call, "new") && len(call.Args) == 1 {
+			if tv, ok := e.info.Types[x]; ok && tv.Type != nil {
+				switch {
+				case isNumericOrString(tv.Type) && isIntegerType(tv.Type):
+					return Val{Lin: linConst(0)}
+				case isBoolType(tv.Type):
+					return Val{B: FFalse}
+				default:
+					return Val{Opaque: "zero"}
+				}
+			}
+		}
+	}
 	if tv, ok := e.info.Types[x]; ok && tv.Value != nil {
 		switch tv.Value.Kind() {
 		case constant.Int:
